@@ -1393,6 +1393,13 @@ func TestWALHistories(t *testing.T) {
 		}
 		s.files = []*fileM{{}}
 		s.note("head=%d total=%d:", s.headLimit, s.totalLimit)
+		// The directory of a long-running node: the rolled files carry indices far from zero (the index only ever
+		// grows; old files are discarded by the size limit) and a group takes its index range from the directory
+		// listing when it is opened. The history starts with one or two rolled files at a drawn index, next to the
+		// places where the number of digits in the file name changes.
+		if aged := rapid.SampledFrom(agedIndices).Draw(t, "agedIndex"); aged >= 0 {
+			s.age(t, aged)
+		}
 		s.startup()
 		s.fullScan("initially")
 
@@ -1491,6 +1498,44 @@ func TestWALHistories(t *testing.T) {
 				"offsets_probed": s.nProbe})
 		}
 	})
+}
+
+// agedIndices: -1 = a fresh directory; otherwise the index of the newest rolled file that exists when the history
+// starts (names are "%03d": wal.009 -> wal.010, wal.099 -> wal.100, wal.999 -> wal.1000, wal.9999 -> wal.10000, ...).
+var agedIndices = []int{-1, -1, -1, -1, 0, 8, 9, 98, 99, 998, 999, 1000, 1001, 9998, 9999, 10000, 99998, 99999, 100000, 1234567}
+
+// age prepares rolled files written by the real WAL: records are written and synced, the log is stopped, and the
+// head is given the name RotateFile would have given it at that index.
+func (s *sim) age(t *rapid.T, newest int) {
+	n := 1
+	if newest > 0 && rapid.Bool().Draw(t, "twoAgedFiles") {
+		n = 2
+	}
+	for idx := newest - n + 1; idx <= newest; idx++ {
+		s.open()
+		for i, k := 0, rapid.IntRange(0, 3).Draw(t, "agedRecords"); i < k; i++ {
+			if rapid.IntRange(0, 2).Draw(t, "agedMarker") == 0 {
+				s.write(consensus.EndHeightMessage{Height: s.ehNext}, "endheight", true)
+			} else {
+				msg, kind := genMsg(t, s.nextSeq, s.ehNext)
+				if kind == "large" || kind == "near-max" {
+					msg, kind = consensus.VerifTimeout{Duration: time.Duration(s.nextSeq + 1), Height: s.ehNext, Step: cstypes.RoundStepPropose}, "timeout"
+				}
+				s.write(msg, kind, true)
+			}
+		}
+		s.closeWAL()
+		s.syncHeadOffline()
+		h := s.head()
+		h.idx, h.name = idx, fmt.Sprintf("wal.%03d", idx)
+		if err := os.Rename(s.path, filepath.Join(s.dir, h.name)); err != nil {
+			s.infra("rename: %v", err)
+		}
+		s.files = append(s.files, &fileM{})
+		s.headComplete, s.headPartial, s.headSize = 0, 0, 0
+	}
+	s.class(fmt.Sprintf("aged:newest-index-digits=%d", len(strconv.Itoa(newest))))
+	s.note("AGED(%d files, newest wal.%03d)", n, newest)
 }
 
 // crash: keep what is on disk, cut the unacknowledged tail at every offset of short tails (on copies) and at a
